@@ -57,6 +57,8 @@ def scenarios(tier):
         out.append({'name': f'validity[{g[0]}]', 'fn': 'scn_validity', 'kwargs': {'gi': gi}})
     for mi, m in enumerate(MESH_CONFIGS):
         out.append({'name': f'polygons[UGRID {m[0]}]', 'fn': 'scn_mesh_polygons', 'kwargs': {'mi': mi}})
+    for bd in ('yx4', 'xy4', 'yx3', '4yx'):
+        out.append({'name': f'CFGrid2D stored bounds are used only when they are on the grid of the coordinate[bounds dims {bd}]', 'fn': 'scn_bounds_lookup', 'kwargs': {'bd': bd}})
     return out
 
 
@@ -242,3 +244,24 @@ def scn_mesh_polygons(c, mi):
 
 
 NATIVE = {'': 'polygons'}
+
+
+def scn_bounds_lookup(c, bd):
+    """CFGrid2DTopology._get_or_make_bounds: the variable named by the `bounds` attribute is used as given exactly when it has the
+    dimensions (y, x, 4 corners) of the coordinate; anything else (grid dimensions the other way round, 3 corners, corners first) is
+    reported and NOT used positionally -- the corners are then made from the centres, on the coordinate's own grid."""
+    it = new_interp()
+    ds, conv = inputs.make_convention(it, c, 'CFGrid2D', bounds=True, bounds_dims=bd)
+    c.assume(ds.info['ny'] != ds.info['nx'])          # non-square: a transposed table cannot fit by accident
+    topo = expect_ok(c, 'topology', lambda: it.getattr(conv, 'topology'))
+    for coord, bname in (('longitude', 'lon_bnds'), ('latitude', 'lat_bnds')):
+        n0 = len(c.events)
+        b = expect_ok(c, f'_get_or_make_bounds({coord})', lambda: it.call(it.getattr(topo, '_get_or_make_bounds'), [it.getattr(topo, coord)], {}))
+        warned = any(e[0] == 'warning' for e in c.events[n0:])
+        stored = ds._vars[bname]
+        c.check(f'{coord}: the result is on the grid of the coordinate: (y, x, corners)', b.variable.dims[:2] == ('j', 'i') and len(b.variable.dims) == 3)
+        if bd == 'yx4':
+            c.check(f'{coord}: stored bounds on the right dimensions are used as given, silently', b.variable.arr is stored.arr and not warned)
+        else:
+            c.check(f'{coord}: stored bounds on other dimensions are not used', b.variable.arr is not stored.arr)
+            c.check(f'{coord}: ... and a warning says so', warned)
